@@ -29,9 +29,17 @@ import (
 
 type c06Case struct {
 	Table gen.Table `json:"table"`
+	// Nested, when set, selects the nested arm (parent + child records over inputs beyond the read buffer);
+	// see c06_nested_test.go.
+	Nested *c06Nested `json:"nested,omitempty"`
 }
 
-func genC06(t *rapid.T) c06Case { return c06Case{Table: gen.DrawTable(t)} }
+func genC06(t *rapid.T) c06Case {
+	if rapid.IntRange(0, 6).Draw(t, "arm") == 0 {
+		return c06Case{Nested: genC06Nested(t)}
+	}
+	return c06Case{Table: gen.DrawTable(t)}
+}
 
 const c06KnownLastLine = "c06-fixedlength-4096-unterminated-last-line-dropped"
 
@@ -220,6 +228,9 @@ func c06LastLineExactBuffer(in []byte) bool {
 }
 
 func checkC06(c c06Case) obs.Result {
+	if c.Nested != nil {
+		return checkC06Nested(c.Nested)
+	}
 	tb := c.Table
 	exp, err := tb.Expect()
 	if err != nil {
